@@ -173,7 +173,7 @@ def install_local_findings(prop):
 
 
 def feature_key(st):
-    return "+".join(k for k in ("meta", "pre", "prerepeat", "init", "taskout", "data", "paths", "tags", "cyclic") if st.get(k)) or "plain"
+    return "+".join(k for k in ("files", "meta", "pre", "prerepeat", "init", "taskout", "data", "paths", "tags", "cyclic") if st.get(k)) or "plain"
 
 
 def make_cases(ctx, rng, kind, nlibs, per, tag):
@@ -218,6 +218,30 @@ def make_proc_cases(ctx, rng, which, nlibs, per, tag):
     return libs, cases
 
 
+FILE_POOL = ["train.Settings", "train.Only", "a.Settings", "a.Only", "b.Settings", "b.Only", "eval.Settings", "eval.Only"]
+
+
+def make_file_cases(ctx, rng, n):
+    """configurations whose classes live in plain scripts / top-level modules (recorded with "file"): two scripts
+    both run as `__main__` and two `defs.py` in different directories; same-named and differently-named classes"""
+    cases = []
+    for i in range(n):
+        same_only = rng.random() < 0.5     # only the same-named classes: a wrong lookup is silent
+        pool = [k for k in FILE_POOL if k.endswith(".Settings")] if same_only else list(FILE_POOL)
+        order = rng.sample(pool, rng.randrange(max(2, len(pool) - 3), len(pool) + 1))
+        if not {"a", "b"} <= {k.split(".")[0] for k in order}:   # both files named `defs` are present
+            order += [k for k in ("a.Settings", "b.Settings") if k not in order]
+        if "train.Settings" not in order and rng.random() < 0.8:  # both `__main__` scripts are present (Holder is in evaluate.py)
+            order.insert(rng.randrange(len(order) + 1), "train.Settings")
+        if rng.random() < 0.5:
+            order.append(rng.choice(order))     # a shared object
+        rng.shuffle(order)
+        spec = {"x": {t: rng.choice([1, 2, 3, 7, 12, 255]) for t in ("train", "a", "b", "eval")}, "order": order,
+                "first": rng.choice(pool), "dict": rng.sample(pool, rng.choice([0, 1, 2]))}
+        cases.append({"lib": 0, "kind": "files", "spec": spec, "graph": {"nodes": []}})
+    return cases
+
+
 def case_desc(libs, c):
     d = {k: v for k, v in c.items() if k != "lib"}
     d["lib"] = libs[c["lib"]]
@@ -228,7 +252,10 @@ def evaluate(ctx, libs, cases, recs, what, with_model=True):
     """monitors -> ctx.monitor_fail, evidence counters, then the comparison with the Lean model"""
     errs = 0
     for c, r in zip(cases, recs):
-        st = graph_stats(libs[c["lib"]], c["graph"])
+        if c["kind"] == "files":
+            st = {"nodes": len(set(c["spec"]["order"])) + 1, "shared": 0, "refs": len(c["spec"]["order"]), "files": 1}
+        else:
+            st = graph_stats(libs[c["lib"]], c["graph"])
         ctx.count("nodes", min(st["nodes"], 15))
         ctx.count("shared", min(st["shared"], 3))
         ctx.count("features", feature_key(st))
@@ -260,7 +287,7 @@ def evaluate(ctx, libs, cases, recs, what, with_model=True):
         return
     for (c, r), mo in zip(good, mouts):
         ctx.traces_validated += 1
-        n = compare(ctx, {"lib": libs[c["lib"]]["pkg"], "graph": c["graph"], "root": c.get("root", 0), "value": c.get("value")}, r, mo, what)
+        n = compare(ctx, {"lib": libs[c["lib"]]["pkg"], "graph": c["graph"], "root": c.get("root", 0), "value": c.get("value"), "spec": c.get("spec")}, r, mo, what)
         ctx.count("model_lines_compared", "total", n)
         for line in r["lines"]:
             ctx.count("ops", line["op"])
